@@ -101,6 +101,11 @@ def build(case, ck, counter):
     dep = " + ".join([f"jnp.sum({p['name']})" for p in case["params"]] + ([kint] if case.get("int_scalar") else [])) or "0.0"
     # a manual isinstance in the body (dispatch on dtype): a failing check of a scalar is an ordinary False, traced or not
     manual = f"    assert not isinstance({kint}, A_kfloat)\n" if case.get("int_scalar") else ""
+    # ... and of every rank-0 float argument against an integer annotation (a weakly typed scalar under grad is a tracer with a concrete primal)
+    ns["A_int0"] = jaxtyping.Int[jax.Array, ""]
+    for p in case["params"]:
+        if p["shape"] == [] and not case.get("dataclass"):
+            manual += f"    assert not isinstance({p['name']}, A_int0)\n"
     src = f"def fn({', '.join(parts)}){retstr}:\n    __count.append(1)\n{manual}    return jnp.zeros({shape!r}, dtype='float32') + ({dep}) * 0.0\n"
     gc.exec_source(src, "<vf-c17>", ns)
     with warnings.catch_warnings():
@@ -205,8 +210,14 @@ def check_case(ctx, case):
         trans["jit-pyscalar"] = lambda: jax.jit(f)(*pyargs)
         trans["grad-pyscalar"] = lambda: jax.grad(scalar, argnums=argnums)(*pyargs)
         trans["eval_shape-pyscalar"] = lambda: jax.eval_shape(f, *pyargs)
+    leakcheck = bool(case.get("leakcheck"))
     for name, thunk in trans.items():
         counter.clear()
+        if leakcheck:
+            # JAX's tracer-leak checker on: nothing may keep a tracer alive after the transformation has returned
+            def thunk(thunk=thunk):
+                with jax.checking_leaks():
+                    return thunk()
         got = outcome(thunk)
         if any(b in got for b in BAD):
             raise Violation("forced-concrete", case, f"{name}: {got}; {desc} in_axes={in_axes}")
@@ -224,7 +235,7 @@ def check_case(ctx, case):
     ctx.extra["transformed_calls"] = ctx.extra.get("transformed_calls", 0) + len(trans)
     ctx.note([[(gc.spec_of(p), p["shape"]) for p in case["params"]], case["ret"] and (gc.spec_of(case["ret"]), case["ret"]["shape"]), in_axes, in_axes2, ck],
              (len(case["params"]) >= 2 and shared) or not ref,
-             classes=([f"category-{case.get('cat')}"] if case.get("cat_params") else []) + (["python-scalar-arguments"] if any(s == () for s in shapes) else []) + (["dataclass-handed-to-the-transformations"] if is_dc else []) + (["unrelated-int-scalar-argument"] if case.get("int_scalar") else []) + (["int-scalar-argument-named-like-an-axis"] if case.get("int_scalar") and case.get("int_name") else []) + ([f"array-type-typevar-{case['typevar']}"] if case.get("typevar") else []) + [f"verdict-{eager}", f"nparams-{len(case['params'])}", f"checker-{ck}"] + (["shared-name"] if shared else []) + (["some-in_axes-None"] if None in in_axes else []) + (["parameter-named-like-axis-in-expression"] if case.get("shadowing_names") else []),
+             classes=([f"category-{case.get('cat')}"] if case.get("cat_params") else []) + (["python-scalar-arguments"] if any(s == () for s in shapes) else []) + (["dataclass-handed-to-the-transformations"] if is_dc else []) + (["jax-checking_leaks-on"] if leakcheck else []) + (["unrelated-int-scalar-argument"] if case.get("int_scalar") else []) + (["int-scalar-argument-named-like-an-axis"] if case.get("int_scalar") and case.get("int_name") else []) + ([f"array-type-typevar-{case['typevar']}"] if case.get("typevar") else []) + [f"verdict-{eager}", f"nparams-{len(case['params'])}", f"checker-{ck}"] + (["shared-name"] if shared else []) + (["some-in_axes-None"] if None in in_axes else []) + (["parameter-named-like-axis-in-expression"] if case.get("shadowing_names") else []),
              sample={"params": [(p["name"], gc.spec_of(p), p["shape"]) for p in case["params"]], "ret": case["ret"] and (gc.spec_of(case["ret"]), case["ret"]["shape"]),
                      "in_axes": in_axes, "verdict": eager})
 
@@ -283,6 +294,7 @@ def c17_case(draw):
     axis_names = [a for a in axis_names if a.isascii() and a.isidentifier() and not keyword.iskeyword(a) and a not in {p["name"] for p in case["params"]}]
     case["int_name"] = draw(st.sampled_from(axis_names)) if axis_names and draw(st.integers(0, 1)) == 0 else None
     case["typevar"] = draw(st.sampled_from([None, "bound", None, "constrained", None]))
+    case["leakcheck"] = draw(st.sampled_from([False, True, False]))
     case["dataclass"] = draw(st.integers(0, 4)) == 0 and not any(dl.expr_holes(t.base) for t in toks_all if t.base_kind == "sym")
     case["cat"] = draw(st.sampled_from(["Float16", "Float32", "Inexact", "Float64", "Shaped", "Int", "Num", "BFloat16"]))
     case["cat_params"] = sorted(i for i in range(n) if draw(st.integers(0, 3)) == 0) if draw(st.integers(0, 1)) == 0 else []
